@@ -303,3 +303,12 @@ Proof.
     + congruence.
   - rewrite E in P. exact (proj1 P).
 Qed.
+
+(* assemble_debug stores exactly the symbol table of pass 1 *)
+Theorem debug_keeps_symtab text p o : assemble true (Some text) p = AOk o ->
+  exists sym, pass1 p (Some text) = AOk sym /\ o_sym o = Some sym.
+Proof.
+  unfold assemble. destruct (pass1 p (Some text)) as [sym|k sp|]; cbn [abind]; try discriminate.
+  unfold pass2. destruct (p2_loop (st_labels sym) (mkP2 [] None) p) as [st|k sp|]; cbn [abind]; try discriminate.
+  intros [= <-]. exists sym. split; reflexivity.
+Qed.
